@@ -60,6 +60,9 @@ func (a *toggleAC) CanAppend(accesscontroller.LogEntry, idp.Interface, accesscon
 	return nil
 }
 
+// foreignLog hides the concrete type of a log behind the interface (methods are promoted).
+type foreignLog struct{ iface.IPFSLog }
+
 type Replica struct {
 	AC      *toggleAC
 	Log     *ipfslog.IPFSLog
@@ -166,6 +169,9 @@ func Gen(t *rapid.T, cfg GenConfig) Prog {
 			op.Pin = rapid.IntRange(0, 3).Draw(t, "pin") == 0
 		case "join":
 			op.B = rapid.IntRange(0, n-1).Draw(t, "b")
+			if rapid.IntRange(0, 4).Draw(t, "wrapped") == 0 {
+				op.Flag = 1
+			}
 		case "joinbad":
 			op.B = rapid.IntRange(0, n-1).Draw(t, "b")
 			op.Flag = rapid.IntRange(0, 15).Draw(t, "flag")
@@ -256,7 +262,11 @@ func (w *World) Exec(tb ev.TB, idx int, op Op, sync bool) *OpInfo {
 		}
 		info.Src = b
 		src := w.Reps[b]
-		ret, err := r.Log.Join(src.Log, -1)
+		var other iface.IPFSLog = src.Log
+		if op.Flag%2 == 1 {
+			other = foreignLog{src.Log} // another implementation of the log interface: Join cannot rely on the concrete type
+		}
+		ret, err := r.Log.Join(other, -1)
 		info.Returned, info.Err = ret, err
 		if err == nil {
 			r.Model.Union(src.Model)
